@@ -1,4 +1,110 @@
-import Blf.FileSeq
-/-! # C05 (theorems under construction; the executable model `Blf.FileSeq` is tied to the code by the `file` protocol) -/
+import Blf.FileRoundTrip
+/-!
+# C05 — File header statistics are exact and agree with the reader's running counters
+
+On the file model (`FileSeq.writeFile` / `readFile`, tied to the implementation by the `file` correspondence runs), for every
+object list, level, container size and restore-point setting:
+
+* `C05_file_size`: the stored `fileSize` is the length of the file;
+* `C05_uncompressed_size`: the stored `uncompressedFileSize` is statistics size + Σ over all containers (32 + payload);
+* `C05_restore_point_offset`: with restore points, the stored offset is where the trailing container begins;
+* `C05_reader_counters`: a reader of that file ends with its running uncompressed-size counter equal to the stored value, its
+  object counter equal to the number of objects written (restore-point objects excluded), and hands back every header field
+  as stored — the caller-supplied ones verbatim.
+-/
 namespace Blf.Props
+open Blf Blf.FileSeq Blf.FileRound Blf.ContainerRound Blf.FileRoundTrip
+
+theorem usizeOf_append (a b : List Bytes) : usizeOf (a ++ b) = usizeOf a + usizeOf b := by
+  induction a with
+  | nil => simp [usizeOf]
+  | cons x a ih => simp only [List.cons_append, usizeOf, ih]; omega
+
+theorem usizeOf_sum (a : List Bytes) : (a.map fun c => 32 + c.length).sum = usizeOf a := by
+  induction a with
+  | nil => rfl
+  | cons x a ih => simp only [List.map_cons, List.sum_cons, usizeOf, ih]
+
+theorem num_setNum3 (h : Obj) (a b c : Nat) (g : Nat) (h7 : g ≠ 7) (h8 : g ≠ 8) (h9 : g ≠ 9) :
+    (((h.setNum 7 a).setNum 8 b).setNum 9 c).num g = h.num g := by
+  simp [Obj.setNum, h7, h8, h9]
+
+/-- the stored uncompressed size: statistics size plus, over all containers, header plus payload -/
+theorem C05_uncompressed_size (Z : Zlib) (cap : Nat) (cfg : WCfg) (hdr : Obj) (objs : List (Codec × Obj)) :
+    (storedHeader Z cap cfg hdr objs).num 8 = hdr.num 1 + usizeOf (payloads cap cfg objs) := by
+  unfold storedHeader payloads
+  simp only [Obj.setNum, usizeOf_append, usizeOf_sum]
+  simp
+  split <;> simp [usizeOf] <;> omega
+
+/-- the stored object count: the objects written, restore points excluded -/
+theorem C05_object_count (Z : Zlib) (cap : Nat) (cfg : WCfg) (hdr : Obj) (objs : List (Codec × Obj)) :
+    (storedHeader Z cap cfg hdr objs).num 9 = (objs.filter fun p => p.2.num 4 ≠ 115).length := by
+  unfold storedHeader; simp [Obj.setNum]
+
+/-- the stored file size is the size of the file -/
+theorem C05_file_size (Z : Zlib) (cap : Nat) (cfg : WCfg) (hdr : Obj) (objs : List (Codec × Obj))
+    (hH : ItemsWF (storedHeader Z cap cfg hdr objs) Lfull) :
+    (writeFile Z cap cfg hdr objs).length = (storedHeader Z cap cfg hdr objs).num 7 := by
+  rw [writeFile_eq, encodeStats_eq cap _ hH, List.length_append, encItems_length _ _ hH]
+  have h144 : ∀ o : Obj, itemsSize o Lfull = 144 := fun o => by simp [Lfull, Lstats, itemsSize, Item.size]
+  rw [h144]
+  unfold storedHeader payloads
+  simp only [Obj.setNum, List.map_append, flattenB_append, List.length_append]
+  simp
+  split <;> simp [flattenB] <;> omega
+
+/-- with restore points, the stored offset designates the start of the trailing container -/
+theorem C05_restore_point_offset (Z : Zlib) (cap : Nat) (cfg : WCfg) (hdr : Obj) (objs : List (Codec × Obj))
+    (hrp : cfg.restorePoints = true) (hH : ItemsWF (storedHeader Z cap cfg hdr objs) Lfull) :
+    (storedHeader Z cap cfg hdr objs).num 13 + (encodeContainer Z cap cfg.level []).length =
+      (writeFile Z cap cfg hdr objs).length := by
+  rw [C05_file_size Z cap cfg hdr objs hH]
+  unfold storedHeader
+  simp [Obj.setNum, hrp]
+
+/-- caller-supplied header fields are stored verbatim -/
+theorem C05_caller_fields_verbatim (Z : Zlib) (cap : Nat) (cfg : WCfg) (hdr : Obj) (objs : List (Codec × Obj)) (g : Nat)
+    (h7 : g ≠ 7) (h8 : g ≠ 8) (h9 : g ≠ 9) (h13 : g ≠ 13) :
+    (storedHeader Z cap cfg hdr objs).num g = hdr.num g ∧ ∀ f, (storedHeader Z cap cfg hdr objs).buf f = hdr.buf f := by
+  unfold storedHeader
+  simp only
+  refine ⟨?_, fun f => ?_⟩
+  · rw [num_setNum3 _ _ _ _ g h7 h8 h9]
+    split
+    · exact Obj.setNum_num_ne _ _ h13
+    · rfl
+  · split <;> rfl
+
+/-- **the reader's running counters equal the header values**, and the header comes back as stored -/
+theorem C05_reader_counters (Z : Zlib) (hZ : ZRT Z) (cap : Nat) (cfg : WCfg) (hdr : Obj) (L : List (Codec × Layout × Obj))
+    (hL : ∀ x ∈ L, Parsable cap x.1 x.2.1 x.2.2 ∧ ArrOK x.1.fresh x.2.1.items)
+    (hsig : hdr.num 0 = FILESIG)
+    (hH : ItemsWF (storedHeader Z cap cfg hdr (L.map fun x => (x.1, x.2.2))) Lfull)
+    (hP : ∀ p ∈ payloads cap cfg (L.map fun x => (x.1, x.2.2)), PayloadOK Z cap cfg.level p) :
+    (readFile Z cap (writeFile Z cap cfg hdr (L.map fun x => (x.1, x.2.2)))).uncompressedSize =
+      (readFile Z cap (writeFile Z cap cfg hdr (L.map fun x => (x.1, x.2.2)))).stats.num 8 ∧
+    (readFile Z cap (writeFile Z cap cfg hdr (L.map fun x => (x.1, x.2.2)))).objectCount = countOf L ∧
+    Agree (Lfull.filterMap Item.numDef) (Lfull.filterMap Item.bufDef)
+      (readFile Z cap (writeFile Z cap cfg hdr (L.map fun x => (x.1, x.2.2)))).stats
+      (storedHeader Z cap cfg hdr (L.map fun x => (x.1, x.2.2))) := by
+  obtain ⟨ds, _, _, _, h4, h5, h6⟩ := read_write_file Z hZ cap cfg hdr L hL hsig hH hP
+  refine ⟨?_, h4, h6⟩
+  rw [h5, h6.1 8 (by simp [Lfull, Lstats, Item.numDef]), C05_uncompressed_size]
+
+/-- the reader's object counter is the stored object count when the writer's pre-processing leaves the type codes alone
+    (true of every exactly-framed class: `Gen.exact_hdr`) -/
+theorem C05_count_matches (L : List (Codec × Layout × Obj))
+    (hty : ∀ x ∈ L, (pre x.1 x.2.1 x.2.2).num 4 = x.2.2.num 4) :
+    countOf L = ((L.map fun x => (x.1, x.2.2)).filter fun p => p.2.num 4 ≠ 115).length := by
+  induction L with
+  | nil => rfl
+  | cons x l ih =>
+    have h1 := hty x (by simp)
+    have h2 := ih (fun y hy => hty y (by simp [hy]))
+    simp only [countOf, List.map_cons, List.filter_cons, h1, h2]
+    by_cases h : x.2.2.num 4 = 115
+    · simp [h]
+    · simp [h]; omega
+
 end Blf.Props
